@@ -495,3 +495,49 @@ def spec_features(spec):
     if any((n.get("ov") or {}) for n in nt.values()):
         f.add("node_overrides")
     return f
+
+
+def augment_gamma(spec, dde_approx=0):
+    """Return the explicitly written augmented ODE system: every edge with (delay d, spread s) - or every delayed edge
+    when dde_approx=n - is replaced by a chain node of n = round((d/s)^2) first-order stages of rate n/d (zero initial
+    state, unit gain) between source and target.  The user variables keep their paths."""
+    import copy
+    out = copy.deepcopy(spec)
+    depth = max(p.count("/") for p, _ in out["nodes"])
+    new_edges = []
+    k = 0
+    for e in out["edges"]:
+        d, s = e.get("d"), e.get("sp")
+        if d is None or (s is None and not dde_approx):
+            new_edges.append(e)
+            continue
+        if s is not None and s > 0:
+            n = int(np.round((d / s) ** 2))
+            if n <= dde_approx:
+                n = dde_approx
+        else:
+            n = dde_approx
+        if n <= 0:
+            e2 = dict(e, d=None, sp=None)
+            new_edges.append(e2)
+            continue
+        rate = n / d
+        on, ntn = f"gchain_op{k}", f"gchain_nt{k}"
+        vars_ = [["zin", "input", 0.0], ["kd", "const", rate]] + [[f"z{j}", "state", 0.0] for j in range(1, n + 1)]
+        eqs = []
+        for j in range(1, n + 1):
+            prev = ["var", "zin"] if j == 1 else ["var", f"z{j - 1}"]
+            eqs.append([f"z{j}", True, ["bin", "*", ["var", "kd"], ["bin", "-", prev, ["var", f"z{j}"]]], 0])
+        out["ops"][on] = {"vars": vars_, "eqs": eqs, "out": f"z{n}"}
+        out["ntypes"][ntn] = {"ops": [on], "ov": {}}
+        pre = (e.get("scope") + "/") if e.get("scope") else ""
+        s_abs, t_abs = pre + e["s"], pre + e["t"]
+        comps = s_abs.split("/")[:-3]
+        npath = "/".join(comps[:depth] + [f"gch{k}"]) if depth else f"gch{k}"
+        out["nodes"].append([npath, ntn])
+        new_edges.append({"s": s_abs, "t": f"{npath}/{on}/zin", "w": 1.0, "d": None, "sp": None, "et": None, "scope": ""})
+        new_edges.append({"s": f"{npath}/{on}/z{n}", "t": t_abs, "w": e["w"], "d": None, "sp": None, "et": None,
+                          "scope": ""})
+        k += 1
+    out["edges"] = new_edges
+    return out
